@@ -2,6 +2,7 @@ package rules
 
 import (
 	"go/constant"
+	"go/token"
 	"sort"
 	"strings"
 
@@ -56,7 +57,23 @@ func runC05(c *eng.Ctx) {
 			c.Unresolved("writer.Write in segment.write")
 		}
 	}
-	c.Floor(4)
+	// the write position is the file size at open and advances only by bytes written
+	posF := p.Field(clPkg, "segment", "position")
+	for _, a := range eng.StoresToField(p, posF, false) {
+		st := a.Use.(*ssa.Store)
+		k := ir.FuncKey(a.Fn)
+		switch k {
+		case cl + "newSegment":
+			ok := eng.Call(-1, "io/fs.FileInfo.Size", "os.FileInfo.Size")(st.Val)
+			c.Check(ok, "segment.position at open = size of the log file", c.Pos(st), "position = Stat().Size()", "the write position of a recovered segment is "+eng.Describe(st.Val)+", not the size of the log file: after a crash between the log write and the index write, new index entries point at the wrong bytes")
+		case cl + "(*segment).write":
+			ok := eng.BinComm(token.ADD, eng.Load(posF, nil), eng.AnyV)(st.Val)
+			c.Check(ok, "segment.position advances by the bytes written", c.Pos(st), "position += n", "segment.write sets the position to "+eng.Describe(st.Val))
+		default:
+			c.Violate("store to segment.position in "+k, c.Pos(st), "the write position is set outside newSegment (file size) and write (+= n): recovery no longer takes the position from the file, so index entries written after a crash can point at the wrong bytes")
+		}
+	}
+	c.Floor(6)
 
 	// ---- R05.2 atomic checkpoints
 	c.Rule("R05.2", "K3")
